@@ -49,8 +49,18 @@
 //   - the database pool is pgfake's (max 4 connections); db.Connect's schema validation is skipped.
 //   - Validator: the beacon API is an httptest server that knows validators 0..NumValidators-1 with
 //     deterministic BLS keys; it ignores the state id.
+//   - Validator only: pgfake transactions are whole-database snapshots with last-writer-wins commits,
+//     and ValidatorSyncer writes its position through the pool while its transaction is open; the rig
+//     re-applies that write after the commit, as PostgreSQL would keep it (see posMerge).
 //   - "process restart" after a dropped connection = new pool + new clients + new syncer over the same
 //     server; the real keyper would additionally run its initial sync (call InitialSync for that).
+//
+// Determinism: no clocks, sleeps or randomness in the rig. One source of run-to-run variation is in the
+// code under test: MultiEventSyncer iterates its processors in Go map order (multieventsyncer.go:113,
+// :123, :227), so within one range the order of "eth_getLogs of the registry" vs. "GetActive... +
+// eth_getLogs per trigger", and inside the transaction of "insert registrations" vs. "insert fired
+// triggers", varies. The k of FailRPC / FailDB therefore may hit a different call in another run;
+// LastTrace says which one it was. Stored() is sorted, so results do not depend on it.
 package syncrig
 
 import (
@@ -462,25 +472,33 @@ func (w *World) run(ctx context.Context, f func() error) error {
 		trace = append(trace, "rpc "+method)
 		return nil
 	})
+	var merge posMerge
 	w.Srv.SetHook(func(ev pgfake.Event) pgfake.Action {
 		k := ev.Seq - dbBase
 		name := "db " + ev.Kind
 		if ev.Kind == "stmt" {
 			name += " " + ev.Name
 		}
+		act := pgfake.Proceed
 		if k == failDB {
-			trace = append(trace, name+"!")
+			act = mode
+			name += "!"
 			if mode == pgfake.DropBefore || mode == pgfake.DropAfter {
 				dropped = true
 			}
-			return mode
 		}
 		trace = append(trace, name)
-		return pgfake.Proceed
+		if w.Kind == Validator {
+			merge.observe(w.Srv, ev, act)
+		}
+		return act
 	})
 	err := f()
 	w.Chain.SetRPCHook(nil)
 	w.Srv.SetHook(nil)
+	if w.Kind == Validator {
+		merge.settle(w.Srv)
+	}
 	w.LastRPCCalls = w.Chain.RPCSeq() - rpcBase
 	w.LastDBEvents = w.Srv.Seq() - dbBase
 	w.LastTrace = trace
@@ -538,4 +556,79 @@ func (w *World) MarkDecrypted(ctx context.Context, eon int64, identity []byte) e
 		})
 	}
 	return fmt.Errorf("syncrig: %s has no decrypted flag", w.Kind)
+}
+
+// posMerge emulates, for Validator worlds only, what PostgreSQL does and pgfake cannot: pgfake's
+// transactions are whole-database snapshots and COMMIT replaces the committed state (last writer
+// wins), so a statement that another connection commits while a transaction is open is LOST when the
+// transaction commits. ValidatorSyncer.syncRange does exactly that: inside DBPool.BeginFunc it writes
+// the position with the POOL's queries object (validatorsyncer.go:70,88: db := database.New(v.DBPool)),
+// not the transaction's. In PostgreSQL both writes survive (different tables, no conflict). posMerge
+// watches the statement stream and re-applies such a position write after the transaction's commit,
+// by patching the committed state in place from inside the hook (the hook runs under pgfake's
+// execution lock, before the next statement takes its snapshot). If the transaction itself writes the
+// position (i.e. if the code is repaired), the transaction's value stays.
+type posMerge struct {
+	txConn      int
+	txWrotePos  bool
+	autoPending bool
+	patch       []kdb.ValidatorRegistrationsSyncedUntilRow
+	havePatch   bool
+}
+
+const validatorPosSetter = "SetValidatorRegistrationsSyncedUntil"
+
+func (m *posMerge) apply(db *kdb.DB) {
+	if m.havePatch {
+		db.ValidatorRegistrationsSyncedUntil = m.patch
+		m.patch, m.havePatch = nil, false
+	}
+}
+
+func (m *posMerge) observe(srv *pgfake.Server, ev pgfake.Event, act pgfake.Action) {
+	db := srv.State().(*kdb.DB)
+	m.apply(db)
+	executes := act == pgfake.Proceed || act == pgfake.DropAfter
+	switch ev.Kind {
+	case "begin":
+		if executes {
+			m.txConn, m.txWrotePos, m.autoPending = ev.Conn, false, false
+		}
+	case "stmt":
+		if ev.Name != validatorPosSetter || m.txConn == 0 || !executes {
+			return
+		}
+		if ev.Conn == m.txConn {
+			m.txWrotePos = true
+		} else {
+			m.autoPending = true
+		}
+	case "commit":
+		if ev.Conn != m.txConn {
+			return
+		}
+		if executes && m.autoPending && !m.txWrotePos {
+			rows := db.ValidatorRegistrationsSyncedUntil
+			m.patch = make([]kdb.ValidatorRegistrationsSyncedUntilRow, len(rows))
+			for i, r := range rows {
+				r.BlockHash = append([]byte{}, r.BlockHash...)
+				m.patch[i] = r
+			}
+			m.havePatch = true
+		}
+		m.txConn = 0
+	case "rollback":
+		if ev.Conn == m.txConn {
+			m.txConn = 0
+		}
+	}
+}
+
+func (m *posMerge) settle(srv *pgfake.Server) {
+	if !m.havePatch {
+		return
+	}
+	db := srv.State().Clone().(*kdb.DB)
+	m.apply(db)
+	srv.SetState(db)
 }
